@@ -26,7 +26,7 @@ for m in catalog.M:
         imp = sh('cd /repo && /venv/bin/python -c "import gearpy"')
         if imp.returncode != 0:
             print(f"{m['name']}: DOES NOT IMPORT"); res.append((m['name'], 'broken')); continue
-        r = sh(f"cd {HERE} && /venv/bin/python -B run_check.py {m['prop']} --tier quick")
+        r = sh(f"cd {HERE} && VERIF_EVIDENCE_DIR=/tmp/seed_evidence /venv/bin/python -B run_check.py {m['prop']} --tier quick")
         viol = [l for l in r.stdout.splitlines() if l.startswith('VIOLATION')]
         sigs = [l.strip() for l in r.stdout.splitlines() if l.strip().startswith('sig=')]
         ok = r.returncode == 1 and viol
